@@ -6,6 +6,20 @@ package flushable
 //
 // ---- flush-ID marks (C25) ----
 // gSeen[name]: the mark read from database 'name' by the running CheckDBsSynced (nil: no mark)
+//@ // recorded calls on lazy flushables (used by the pool; the flushable itself is C22's subject)
+//@ ghost gInitN int
+//@ ghost gInitRecv *LazyFlushable
+//@ ghost gInitR0 kvdb.Store
+//@ ghost gInitR1 error
+//@ ghost gLFlushN int
+//@ ghost gLFlushRecv *LazyFlushable
+//@ ghost gLFlushR0 error
+//@ ghost gRealCloseN int
+//@ // gDMat[w] / gCMat[w]: position in the writer-op history of the last dirty / clean mark written for wrapper w (-1: failed)
+//@ // gFlAt[w]: number of the last successful data flush of w
+//@ ghost gDMat[*closeDropWrapped] int
+//@ ghost gCMat[*closeDropWrapped] int
+//@ ghost gFlAt[*closeDropWrapped] int
 //@ ghost gSeen[string] []byte
 //@ ghost gSeenErr[string] error
 //@ // a mark is one prefix byte (0xde dirty, 0x00 clean) followed by the flush ID
@@ -42,3 +56,52 @@ package flushable
 //@ // the closure that formats the list of marks for error messages
 //@ func CheckDBsSynced$1
 //@   ensures true
+//@
+//@ // ---- the pool's flush (C25): drops, then ALL dirty marks, then ALL data flushes, then ALL clean marks ----
+//@ trusted func (*LazyFlushable).InitUnderlyingDb
+//@   requires w != nil
+//@   modifies gInitN, gInitRecv, gInitR0, gInitR1
+//@   ghost gInitN = old(gInitN) + 1
+//@   ghost gInitRecv = w
+//@   ghost gInitR0 = result0
+//@   ghost gInitR1 = result1
+//@   ensures  result1 == nil ==> result0 != nil
+//@ trusted func (*LazyFlushable).Flush
+//@   requires w != nil
+//@   modifies gLFlushN, gLFlushRecv, gLFlushR0
+//@   ghost gLFlushN = old(gLFlushN) + 1
+//@   ghost gLFlushRecv = w
+//@   ghost gLFlushR0 = result
+//@ trusted func (*closeDropWrapped).RealClose
+//@   requires w != nil
+//@   modifies gRealCloseN
+//@   ghost gRealCloseN = old(gRealCloseN) + 1
+//@ func (*SyncedPool).popQueuedDrops
+//@   requires p != nil && p.queuedDrops != nil
+//@   modifies p.queuedDrops
+//@   ensures  fresh(result) && len(result) == old(len(p.queuedDrops)) && forall(j, 0, len(result), has(old(p.queuedDrops), result[j])) && fresh(p.queuedDrops) && len(p.queuedDrops) == 0
+//@   loop 1 modifies res[*]
+//@   loop 1 invariant arrof(res) == arrof(atentry(res)) && len(res) == _k && 0 <= _k && _k <= len(p.queuedDrops) && cap(res) == len(p.queuedDrops) && forall(j, 0, _k, has(p.queuedDrops, res[j]))
+//@
+//@ // wmark(w, at, prefix, id, key): the writer op number 'at' is a successful Put of the mark (prefix, id) under key
+//@ spec wmark(at int, prefix int, id []byte, key []byte) bool = gWrOpKind[at] == 1 && gWrOpErr[at] == nil && gWrOpKey[at] == key && isMark(gWrOpVal[at], prefix, id)
+//@ // (call ordinals follow the SSA block order: MarkFlushID[1] is the clean mark of the last loop, MarkFlushID[2] the dirty mark)
+//@ func (*SyncedPool).flush
+//@   requires p != nil && p.queuedDrops != nil && len(id) <= 4611686018427387904 && forall(n string, has(p.wrappers, n) ==> p.wrappers[n].Flushable != nil && p.wrappers[n].Flushable.LazyFlushable != nil && p.wrappers[n].Flushable.LazyFlushable.Flushable != nil)
+//@   modifies p.queuedDrops, p.wrappers[*], gRealCloseN, gDroperDropN, gDroperDropRecv, gInitN, gInitRecv, gInitR0, gInitR1, gLFlushN, gLFlushRecv, gLFlushR0, gDMat[*], gCMat[*], gFlAt[*], gKeyValueWriterPutN, gKeyValueWriterPutRecv, gKeyValueWriterPutA0, gKeyValueWriterPutA1, gKeyValueWriterPutR0, gWrOpN, gWrOpKind[*], gWrOpRecv[*], gWrOpKey[*], gWrOpVal[*], gWrOpErr[*]
+//@   at call flushable.MarkFlushID[2] ghost gDMat[w.Flushable] = ite(gWrOpErr[gWrOpN - 1] == nil && gWrOpRecv[gWrOpN - 1] == gInitR0 && gInitRecv == w.Flushable.LazyFlushable && wmark(gWrOpN - 1, 222, id, p.flushIDKey), gWrOpN - 1, -1) after
+//@   at call flushable.LazyFlushable).Flush[1] requires [alldirty] forall(n string, has(p.wrappers, n) ==> gDMat[p.wrappers[n].Flushable] >= old(gWrOpN))
+//@   at call flushable.LazyFlushable).Flush[1] ghost gFlAt[wrapper.Flushable] = ite(gLFlushR0 == nil && gLFlushRecv == wrapper.Flushable.LazyFlushable, gLFlushN - 1, -1) after
+//@   at call flushable.MarkFlushID[1] requires [allflushed] forall(n string, has(p.wrappers, n) ==> gFlAt[p.wrappers[n].Flushable] >= old(gLFlushN))
+//@   at call flushable.MarkFlushID[1] ghost gCMat[w.Flushable] = ite(gWrOpErr[gWrOpN - 1] == nil && gWrOpRecv[gWrOpN - 1] == gInitR0 && gInitRecv == w.Flushable.LazyFlushable && wmark(gWrOpN - 1, 0, id, p.flushIDKey), gWrOpN - 1, -1) after
+//@   ensures  [done] result == nil ==> forall(n string, has(p.wrappers, n) ==> gDMat[p.wrappers[n].Flushable] >= old(gWrOpN) && gFlAt[p.wrappers[n].Flushable] >= old(gLFlushN) && gCMat[p.wrappers[n].Flushable] > gDMat[p.wrappers[n].Flushable])
+//@   ensures  [dropped] forall(n string, has(p.wrappers, n) ==> old(has(p.wrappers, n)) && p.wrappers[n] == old(p.wrappers[n]))
+//@   loop 1 modifies p.wrappers[*], gRealCloseN, gDroperDropN, gDroperDropRecv
+//@   loop 1 invariant 0 <= _k && _k <= len(queuedDropsList) && forall(n string, has(p.wrappers, n) ==> old(has(p.wrappers, n)) && p.wrappers[n] == old(p.wrappers[n]))
+//@   loop 2 modifies gInitN, gInitRecv, gInitR0, gInitR1, gDMat[*], gKeyValueWriterPutN, gKeyValueWriterPutRecv, gKeyValueWriterPutA0, gKeyValueWriterPutA1, gKeyValueWriterPutR0, gWrOpN, gWrOpKind[*], gWrOpRecv[*], gWrOpKey[*], gWrOpVal[*], gWrOpErr[*]
+//@   loop 2 invariant gWrOpN >= old(gWrOpN) && forall(n string, _visited[n] ==> gDMat[p.wrappers[n].Flushable] >= old(gWrOpN) && gDMat[p.wrappers[n].Flushable] < gWrOpN)
+//@   loop 3 modifies gLFlushN, gLFlushRecv, gLFlushR0, gFlAt[*]
+//@   loop 3 invariant gLFlushN >= old(gLFlushN) && forall(n string, _visited[n] ==> gFlAt[p.wrappers[n].Flushable] >= old(gLFlushN))
+//@   loop 4 modifies gInitN, gInitRecv, gInitR0, gInitR1, gCMat[*], gKeyValueWriterPutN, gKeyValueWriterPutRecv, gKeyValueWriterPutA0, gKeyValueWriterPutA1, gKeyValueWriterPutR0, gWrOpN, gWrOpKind[*], gWrOpRecv[*], gWrOpKey[*], gWrOpVal[*], gWrOpErr[*]
+//@   loop 4 invariant gWrOpN >= atentry(gWrOpN) && forall(n string, _visited[n] ==> gCMat[p.wrappers[n].Flushable] >= atentry(gWrOpN))
+//@   loop 4 invariant forall(n string, has(p.wrappers, n) ==> gDMat[p.wrappers[n].Flushable] < atentry(gWrOpN) && gDMat[p.wrappers[n].Flushable] >= old(gWrOpN) && gFlAt[p.wrappers[n].Flushable] >= old(gLFlushN))
